@@ -70,7 +70,8 @@ def build_files(species, sequence, seed):
                 records.append((resid, rn, an, len(records) + 1) + tuple(xyz) + v)
         model.append((sp, first, len(records) - first, rids))
     gro = env.fresh_path(".gro")
-    indep.write_gro(gro, "generated system", records, [30.0, 30.0, 30.0], newline="\r\n" if seed % 11 == 0 else None)
+    indep.write_gro(gro, "generated system", records, [30.0, 30.0, 30.0], newline="\r\n" if seed % 11 == 0 else None,
+                    align=[0, 0, 1, 2, 3][seed % 5])      # names placed the usual way or otherwise inside their columns
     parsed = indep.read_gro(gro)["records"]
     # residue numbers as the file shows them (wrapped into five digits)
     fixed = []
